@@ -35,6 +35,9 @@ func sliceArrayOperator(d *dataTreeNavigator, context Context, expressionNode *E
 		relativeFirstNumber := firstNumber
 		if relativeFirstNumber < 0 {
 			relativeFirstNumber = len(lhsNode.Content) + firstNumber
+			if relativeFirstNumber < 0 {
+				relativeFirstNumber = 0
+			}
 		}
 
 		secondNumber, err := getSliceNumber(d, context, lhsNode, expressionNode.RHS)
